@@ -168,7 +168,7 @@ class TemplateGen:
 
     def operator_construct(self, depth):
         r, p = self.rng, self.p
-        k = r.choice(['201', '202', '207', '208', '203', '204', '205', '206', '221', '201+202'])
+        k = r.choice(['201', '202', '207', '208', '203', '204', '205', '206', '221', '201+202', '201wide'])
         self.features['op-' + k] += 1
         unclosed = self.allow_unclosed and r.random() < 0.3
         if unclosed:
@@ -190,6 +190,14 @@ class TemplateGen:
                 else:
                     out.append(self.elem())
             return out
+        if k == '201wide' and getattr(self, '_op_nest', 0) > 0:
+            k = '201'            # not under another modifier: the field must stay within 64 bits and scale 0
+        if k == '201wide':
+            # a scale-0 element widened beyond 53 bits: integers a double cannot hold
+            zs = [i for i in p.numeric if p.b[i][2] == 0 and p.b[i][4] <= 40]
+            e = r.choice(zs)
+            w = r.choice([54, 55, 56, 60, 63, 64])
+            return [201000 + 128 + (w - p.b[e][4]), e] + ([] if unclosed else [201000])
         if k == '201':
             y = r.choice([129, 130, 132, 136, 127, 126, 124, 140])
             return [201000 + y] + inner(r.choice([1, 2, 3])) + ([] if unclosed else [201000])
